@@ -286,6 +286,14 @@ pub fn worker(w: &mut Worker) {
     for t in ["ΟΔΟΣ", "ΟΔΟΣ ΣΟΦΙΑ", "Σ", "aΣ b", "straße", "İstanbul", "ﬁn", "ǅ", "e\u{301}", "\u{a0}a\u{a0}", "\ta\n", "\u{3000}x\u{2003}", "ÀÉÎ", "ǆ"] {
         texts.push(t.to_string());
     }
+    // the wide one-character alphabet (util::wide_chars): alone, between letters, doubled
+    for c in wide_chars() {
+        for t in [c.to_string(), format!("a{}b", c), format!("{}{}", c, c)] {
+            if !texts.contains(&t) {
+                texts.push(t);
+            }
+        }
+    }
     let mut r = Run { w, rig: Rig::new() };
     let multi = |x: &str| !x.is_ascii();
 
